@@ -4,7 +4,7 @@ ASSUMPTIONS = ['composition: jobs other than compress/vectors replace Sha256::tr
                'message lengths: quick = the listed boundary lengths (0,1,54..57,63..65,119..121,127..129) with every split into two updates and every split into three updates for lengths <= 12 and 64..66; thorough = every length 0..130 with every two-way split, three-way splits for lengths <= 70 in steps',
                'HMAC key lengths listed (0,1,32,63,64,65,70 quick; 0..70 thorough) x data lengths 0,1,8; verify with tag lengths 0,31,32,33,40',
                'messages of 2^61 bytes or more (bit-length wrap) are outside the claim', 'the reference implementation in harness/sha.cpp was written from FIPS 180-4 / RFC 2104 and is checked against published known answers in job vectors']
-R = {r'Sha2569transformEPKh$': 'h_uf_transform', r'^_ZN4spec8compressEPjPKh$': 'h_uf_spec_compress'}
+R = {'__all_or_nothing__': True, r'Sha2569transformEPKh$': 'h_uf_transform', r'^_ZN4spec8compressEPjPKh$': 'h_uf_spec_compress'}
 def jobs(tier):
     out = [Job('compress', 'sha.cpp', 'h_c08_compress', [0], reach=['compressed'], bounds='every 256-bit state and 512-bit block', timeout=1500, solver_timeout_ms=600000),
            Job('vectors', 'sha.cpp', 'h_c08_vectors', [0], reach=['vectors'], bounds='FIPS known answers')]
